@@ -48,6 +48,7 @@ def plan(tier):
             qs.append(q2)
         for q in c05:
             if not (q.name.startswith('step:') and '-vec' in q.name and re.search(r':o(\d+):n1$', q.name)): continue
+            if tier == 'quick' and ('vec256' in q.name or 'mantis' in q.name) and not q.name.endswith(':o1:n1'): continue
             q2 = copy.copy(q); q2.name = 'veccfg:%s:%s' % (cname, q.name); q2.cfg = dict(cfg); q2.desc = q.desc + ' [configuration %s]' % cname; q2.group = 'veccfg'
             qs.append(q2)
     # compiler slice: clang IR of the scalar files at other optimisation levels against the same specification models
